@@ -205,7 +205,8 @@ def _map_cyclic(x: numpy.ndarray, lbound: float, ubound: float) -> numpy.ndarray
             f"less than ubound ({ubound})."
         )
 
-    x = numpy.copy(x)
+    # (a float copy: the mapped values are not integers even if `x` is)
+    x = numpy.array(x, dtype=float)
     x[x > ubound] = lbound + (x[x > ubound] - ubound) % (ubound - lbound)
     x[x < lbound] = ubound - (lbound - x[x < lbound]) % (ubound - lbound)
 
